@@ -55,7 +55,7 @@ PROPS = {
                 rule="rate calls generated over kind x parameters x shapes x (mu, sigma) clusters x weak orders x encodings x per-call options; non-trivial = has a tie, is unsorted, has a multi-player team or a per-call option; distinct by hash of the canonical call",
                 partial="agreement of the binary64 evaluation with the closed form to 1e-9 is decided by the monitor (a test), not by the theorem over R"),
     "C02": dict(corr=[("rate", {}, {"exc", "mu", "sigma", "ids", "shape", "objects", "slots"}, 4500), ("ops", {}, ALL, 900)], monitor=True, mon_budget=4800,
-                rule="rate calls as for C01 with ids/names distinct per player; non-trivial = tie/unsorted/multi-player/per-call option",
+                rule="rate calls as for C01 with ids/names distinct per player, ids, shape, object identity, written slots and the numbers at each position compared with the model; non-trivial = tie/unsorted/multi-player/per-call option",
                 partial=""),
     "C03": dict(corr=[("rate", {}, ALL, 3600), ("order", {}, ALL, 1800)], monitor=True, mon_budget=4000,
                 rule="rate calls with every encoding of the weak order (ints, floats, mixed, bools, zeros, big, huge, negative zero); metamorphic relabellings in the monitor; non-trivial = tie or unsorted",
@@ -91,8 +91,8 @@ PROPS = {
                 rule="grammar of malformed / boundary arguments injected at every position of base games of 5 shapes (exhaustive in thorough, stride-sampled in quick); non-trivial = rejected call or a given ranks/scores argument",
                 partial=""),
     "C14": dict(corr=[("rate", {}, ALL, 2000), ("predict", {}, ALL, 3000)], monitor=True, mon_budget=1500,
-                rule="call histories, id/name renamings, hash seeds and access-granular thread schedules on one shared model; non-trivial = history of >= 2 calls or a schedule with a context switch",
-                partial="bytecode-level atomicity / free-threaded builds are outside the model; schedules are replayed at attribute-access granularity"),
+                rule="call histories, id/name renamings, hash seeds, access-granular thread schedules on one shared model, and first calls of a pristine interpreter interleaved at every library line with a second thread's first call (fork per line); non-trivial = history of >= 2 calls or a schedule with a context switch",
+                partial="bytecode-level atomicity / free-threaded builds are outside the model; schedules are replayed at attribute-access granularity, first calls at source-line granularity"),
     "C15": dict(corr=[("rate", {}, ALL, 3600)], monitor=True, mon_budget=3200,
                 rule="per-call tau in {0, 0.0, tiny, default, large}, limit_sigma in {True, False} against a model constructed with that setting; non-trivial = per-call option given",
                 partial=""),
